@@ -12,7 +12,9 @@ def run(tier, seed):
         bins = vlib.build_all(cfgs)
         byname = {c.name(): c for c in cfgs}
         a = n // 4
-        plan = [(cfgs[0].name(), 0, a, []), (cfgs[1].name(), a, 2 * a, []), (cfgs[2].name(), 2 * a, n, [])]
+        mc = 4000 if tier == "thorough" else 320
+        plan = [(cfgs[0].name(), 0, a, []), (cfgs[1].name(), a, 2 * a, []), (cfgs[2].name(), 2 * a, n, []),
+                (cfgs[2].name(), n, n + mc, [], vlib.MEMCHECK)]
         res = vlib.run_cases(bins, plan, seed, wd)
         v.absorb(res, byname, seed, floor_cases=n)
         c = res.counters
@@ -31,6 +33,7 @@ def run(tier, seed):
             "distinct_type_operation_pairs": len(ops), "operations": ops,
             "ledger_events": c.get("ledger_allocs", 0) + c.get("ledger_frees", 0),
             "per_build_cases": res.per_cfg_cases, "builds": [x.describe() for x in cfgs],
+            "histories_under_memcheck": mc,
             "cases_not_explored": res.unexplored,
         }
         return v.finish(cov, ["slot numbers are never compared with the model, only key<->index consistency",
